@@ -102,8 +102,10 @@ Outcome RunC18(RunCtx& ctx)
 	ArchiveOps& ops = GetOps(archive);
 	const std::string an = ArchiveName(archive);
 	SerializationOptions o = GenLoadOptions(s, sim::L_CFG, archive);
-	o.mismatchedTypesPolicy = BitSerializer::MismatchedTypesPolicy::ThrowError;
-	o.overflowNumberPolicy = BitSerializer::OverflowNumberPolicy::ThrowError;
+	// 1 history in 3 runs with the Skip policies, and only there documents may hold values the target type cannot take
+	const bool skipPolicies = s.chance(sim::L_CFG, 1, 3);
+	o.mismatchedTypesPolicy = skipPolicies ? BitSerializer::MismatchedTypesPolicy::Skip : BitSerializer::MismatchedTypesPolicy::ThrowError;
+	o.overflowNumberPolicy = skipPolicies ? BitSerializer::OverflowNumberPolicy::Skip : BitSerializer::OverflowNumberPolicy::ThrowError;
 	const uint32_t nLoads = 2 + s.draw(sim::L_PROG, 5);
 	const bool withAborts = s.chance(sim::L_FAULT, 1, 2);
 	const bool loadModes = !withAborts && archive != A_CSV && s.chance(sim::L_CFG, 1, 2);
@@ -119,7 +121,8 @@ Outcome RunC18(RunCtx& ctx)
 	// 1 history in 8 moves one sequence member between small sizes and sizes around the estimate cap (1023..2049 elements)
 	zg.jumboMember = DrawJumbo(s, sim::L_CFG, 8);
 	zg.jumboOneIn = 2;
-	zg.altDocOneIn = 5;   // documents with null elements in sets (written by a class version that held vectors of optionals)
+	zg.altDocOneIn = 5;
+	zg.altChronoOneIn = skipPolicies ? 3 : 0;   // documents with null elements in sets (written by a class version that held vectors of optionals)
 	if (zg.jumboMember >= 0 && !csv) { ctx.count(std::string("jumbo.") + JumboName(zg.jumboMember)); sim::probe("history-with-container-above-estimate-cap"); }
 	Outcome out;
 	out.cfgKey = an + (withAborts ? "|aborts" : "|clean") + (loadModes ? "|modes" : "") + "|" + std::to_string(nLoads);
@@ -170,6 +173,7 @@ Outcome RunC18(RunCtx& ctx)
 		}
 	}
 
+	const int aliasAfter = s.chance(sim::L_PROG, 1, 4) ? static_cast<int>(s.draw(sim::L_PROG, nLoads)) : -1;
 	std::map<std::string, std::string> finalFields;
 	std::map<std::string, int32_t> refOnlyExist, refUpdate;
 	std::map<std::string, std::optional<int32_t>> refUpdateOpt;
@@ -214,6 +218,14 @@ Outcome RunC18(RunCtx& ctx)
 					for (auto& kv : docUpdateOpt[i]) refUpdateOpt[kv.first] = kv.second;   // a null value resets the optional, the key stays
 					// the first load defines the populated state for OnlyExistKeys (nothing can be added to an empty map)
 					sim::alloc().armed = true;
+				}
+				// the program that owns the object may make several slots of a container share one pointee (a placeholder)
+				if (aliasAfter == static_cast<int>(i) && !last && target.vsObj.size() >= 2)
+				{
+					auto shared = std::make_shared<Inner>();
+					shared->a = 4242;
+					shared->b = "shared-placeholder";
+					for (auto& p : target.vsObj) p = shared;
 				}
 				if (loadModes && i == 0 && r.ok)
 				{
